@@ -537,6 +537,39 @@ func c13Measure(c *vh.Ctx) {
 				}
 			}
 		}
+		// ... or carry the column and leave the cell of a depth class that was not sampled empty (the CSV reader takes an
+		// empty optional cell as 0; the text file has 0000 / 0.000 there)
+		var empty [6]bool
+		emptyCells := false
+		if full && !subset && r.Chance(0.3) {
+			for i := range empty {
+				empty[i] = r.Chance(0.5)
+				emptyCells = emptyCells || empty[i]
+			}
+			if !emptyCells {
+				empty[0], empty[1], empty[2], emptyCells = true, true, true, true // mineral N sampled to 90 cm only
+			}
+			for i := 0; i < 3; i++ {
+				if empty[i] {
+					nm[3+i] = 0
+				}
+				if empty[3+i] {
+					wa[3+i] = 0
+				}
+			}
+		}
+		cellN := func(i int) string {
+			if emptyCells && empty[i-3] {
+				return ""
+			}
+			return fmt.Sprintf("%04d", nm[i])
+		}
+		cellW := func(i int) string {
+			if emptyCells && empty[i] {
+				return ""
+			}
+			return fmt.Sprintf("%.3f", wa[i])
+		}
 		fident := "ALLE"
 		idClass := "ALLE"
 		if r.Chance(0.3) {
@@ -548,7 +581,7 @@ func c13Measure(c *vh.Ctx) {
 		if k == 0 {
 			// deterministic witness: nine mandatory columns only, numeric plot id, layers below 90 cm
 			nl, full, fident, idClass = 12, false, "001", "numeric-id"
-			subset = false
+			subset, emptyCells = false, false
 			w, wmin, cn0 = w[:0], wmin[:0], cn0[:0]
 			for i := 0; i < nl; i++ {
 				wmin, w, cn0 = append(wmin, 0.1), append(w, 0.3), append(cn0, 5)
@@ -581,9 +614,9 @@ func c13Measure(c *vh.Ctx) {
 				}
 				csv.WriteString("\n")
 			case full && hs == 0:
-				fmt.Fprintf(&csv, "%s,%s,%04d,%04d,%04d,%s,%.3f,%.3f,%.3f,%04d,%04d,%04d,%.3f,%.3f,%.3f\n", id, d, nm[0], nm[1], nm[2], mode, wa[0], wa[1], wa[2], nm[3], nm[4], nm[5], wa[3], wa[4], wa[5])
+				fmt.Fprintf(&csv, "%s,%s,%04d,%04d,%04d,%s,%.3f,%.3f,%.3f,%s,%s,%s,%s,%s,%s\n", id, d, nm[0], nm[1], nm[2], mode, wa[0], wa[1], wa[2], cellN(3), cellN(4), cellN(5), cellW(3), cellW(4), cellW(5))
 			case full:
-				fmt.Fprintf(&csv, "%s,%s,%04d,%04d,%04d,%04d,%04d,%04d,%s,%.3f,%.3f,%.3f,%.3f,%.3f,%.3f\n", id, d, nm[0], nm[1], nm[2], nm[3], nm[4], nm[5], mode, wa[0], wa[1], wa[2], wa[3], wa[4], wa[5])
+				fmt.Fprintf(&csv, "%s,%s,%04d,%04d,%04d,%s,%s,%s,%s,%.3f,%.3f,%.3f,%s,%s,%s\n", id, d, nm[0], nm[1], nm[2], cellN(3), cellN(4), cellN(5), mode, wa[0], wa[1], wa[2], cellW(3), cellW(4), cellW(5))
 			case hs == 0:
 				fmt.Fprintf(&csv, "%s,%s,%04d,%04d,%04d,%s,%.3f,%.3f,%.3f\n", id, d, nm[0], nm[1], nm[2], mode, wa[0], wa[1], wa[2])
 			default:
@@ -637,6 +670,9 @@ func c13Measure(c *vh.Ctx) {
 			if !present[0] && !present[1] && !present[2] {
 				cols = "optional-subset:water-only"
 			}
+		}
+		if emptyCells {
+			cols = "15-columns:empty-optional-cells"
 		}
 		c.Count("measure:" + cols + ":" + idClass + ":mode" + mode)
 		replay := map[string]interface{}{"txt": txt.String(), "csv": csv.String(), "id": fident, "layers": nl, "W": w, "WMIN": wmin, "CN0": cn0}
@@ -1004,6 +1040,29 @@ func c13WholeRuns(c *vh.Ctx) {
 				sig = "run:weather-yearfiles-vs-csv:wind<0.5@31Dec:windheight<2"
 			}
 			compareRuns(c, sig, fmt.Sprintf("weather with station height %g and wind height %g as year files vs multi-year CSV", alt, wh), h1, h0, "VYCM", rp)
+		}
+		// a CO2 concentration that rises from year to year: third header line of every year file vs the CO2 column of the
+		// day-of-year layout (station height = the configured altitude, wind height 2 m: the day-of-year layout has neither)
+		{
+			cfgAlt := 50.0
+			fmt.Sscan(strings.Trim(base.Cfg["Altitude"], "\""), &cfgAlt)
+			p2 := mk()
+			p2.UseWeatherLayout(2, false, 0, 2)
+			p2.UseYearlyCO2()
+			c2 := runProject(c, root("co2l2"), p2, nil)
+			p0 := mk()
+			p0.UseWeatherLayout(0, true, cfgAlt, 2)
+			p0.UseYearlyCO2()
+			c0 := runProject(c, root("co2l0"), p0, nil)
+			runs += 2
+			c.Eval()
+			c.Nontrivial(fmt.Sprintf("q%d/wxco2", k))
+			rp := replay("weather layouts with a CO2 value per year")
+			rp["co2_of_first_and_second_year"] = []float64{base.YearlyCO2(base.WeatherStart.Y), base.YearlyCO2(base.WeatherStart.Y + 1)}
+			if c2.V == b.V {
+				c.Count("run:weather-co2-per-year:without-effect")
+			}
+			compareRuns(c, "run:weather-yearfiles-vs-day-of-year:co2-per-year", "weather with a CO2 concentration per year as year files (third header line) vs day-of-year layout (CO2 column)", c2, c0, "VYCM", rp)
 		}
 		// date formats: numeric-only outputs
 		{
